@@ -65,7 +65,8 @@ pub struct Shader {
 
     /// The HLSL bytecode of this shader. The DX level used varies.
     #[br(seek_before = SeekFrom::Start(shader_data_offset as u64 + data_offset as u64 + if is_vertex { 8 } else { 0 } ))]
-    #[br(count = data_size)]
+    // data_size covers the whole blob, including the additional data in front of the bytecode
+    #[br(count = if is_vertex { data_size.saturating_sub(8) } else { data_size })]
     #[br(restore_position)]
     pub bytecode: Vec<u8>,
 }
